@@ -102,6 +102,12 @@ func propC07(c *ctx) error {
 		{[][2]string{{"t", `<p :define="items"><li>real</li></p><ul :insert="items" :remove="all-but-first"><li>proto 1</li><li>proto 2</li></ul>`}}, "t", `<ul><li>real</li></ul>`, ""},
 		{[][2]string{{"t", `<p :define="items"><li>real</li><li>real 2</li></p>[<ul :replace="items" :remove="all-but-first"><li>proto 1</li><li>proto 2</li></ul>]`}}, "t", `[<li>real</li><li>real 2</li>]`, ""},
 		{[][2]string{{"t", `[<ul :define="other" :remove="all-but-first"><li>proto 1</li><li>proto 2</li></ul>]<q :insert="other">o</q>`}}, "t", `[]<q><li>proto 1</li><li>proto 2</li></q>`, ""}, // (the fragment is the CONTENT of the defining element; its other directives play no part)
+		// blank text is text of white space in the Unicode sense (form feed, vertical tab, NEL, no-break space, ideographic
+		// space, line separator): trimmed at the ends of a definition like ordinary blanks
+		{[][2]string{{"t", "<p :define=\"f\">\u3000<i>x</i>\u00a0</p>[<div :insert=\"f\">old</div>]"}}, "t", `[<div><i>x</i></div>]`, ""},
+		{[][2]string{{"t", "<p :define=\"f\">\f<i>x</i>\v</p>[<div :replace=\"f\">old</div>]"}}, "t", `[<i>x</i>]`, ""},
+		{[][2]string{{"t", "<p :define=\"f\">\u0085\u2028 <i>x</i> y \u2029\n</p>[<div :insert=\"f\">old</div>]"}}, "t", "[<div><i>x</i> y \u2029\n</div>]", ""},
+		{[][2]string{{"t", "<p :define=\"f\">\u00a0</p>[<div :insert=\"f\">old</div>]"}}, "t", `[<div></div>]`, ""},
 		// MANY fragment calls from one level are not nesting: 300 rows through replace and through insert
 		{[][2]string{{"t", `<template :define="row">R</template><p :range="_, k : big" :replace="row">x</p>|<i :range="_, k : big" :insert="row">x</i>`}}, "t", strings.Repeat("R", 300) + "|" + strings.Repeat("<i>R</i>", 300), ""},
 		// a recursive fragment bounded by the data (tree rendering)
